@@ -142,6 +142,29 @@ def hardening_product():
     return out
 
 
+def host_runner_enabled():
+    """The scenarios that leave the contexts the way the library's own multi-server host does
+    (`server_manager.run_command`) are generated once `known_findings.json` has an entry for them (keys ending in
+    `/run_command`): on the tree of this writing they FAIL (finding C16-run-command-*, fix
+    fixes/C16-run-command-exit-in-entering-task.diff), and a check must not raise a new alarm on an unchanged tree."""
+    from .. import core
+    try:
+        return any(k.get("property") == "C16" and str(k.get("key", "")).endswith("/run_command") for k in core.load_known_findings())
+    except Exception:  # noqa: BLE001
+        return False
+
+
+def host_runner_product():
+    out = []
+    groups = [[{"behaviour": "well"}], [{"behaviour": "ignore_term"}], [{"behaviour": "well", "on_term": 0}],
+              [{"behaviour": "well", "term_delay": 0.5}, {"behaviour": "well"}],
+              [{"behaviour": "well"}, {"behaviour": "ignore_term"}, {"behaviour": "slow_start"}]]
+    for g in groups:
+        for p in ("normal", "exception"):
+            out.append({"behaviour": "well", "path": p, "moment": "after", "api": "run_command", "nreq": 1, "servers": g})
+    return out
+
+
 def body_exception_product():
     """every class of exception the BODY may leave the context with — unprintable ones, groups, the builtins the
     wrappers filter on — at every moment, through every API, with and without a host logger that formats at DEBUG"""
@@ -368,6 +391,8 @@ class Scenarios(Suite):
             out = (product(["stdio_client"], nreq=1, junk=False) + backlog_product() + reuse_product(("StdioClient", "StdioTransport"))
                    + hardening_product() + body_exception_product() + status_product() + stderr_product() + concurrent_product()
                    + entry_scan(4, 160) + BAD[:4])
+        if host_runner_enabled():
+            out += host_runner_product()[: (4 if budget == "quick" else None)]
         for i, c in enumerate(out):
             if "bad" not in c:
                 c["nonce"] = f"{budget[0]}{i}"
@@ -387,6 +412,10 @@ class Scenarios(Suite):
                 d[key] = case[key]
         if case.get("concurrent"):
             return {"m": "shutdown", "path": case["path"], "concurrent": case["concurrent"]}
+        if case.get("servers"):
+            return {"m": "shutdown", "path": "normal", "concurrent": [
+                {"behaviour": "slow_term", "term_delay_ms": int(sp["term_delay"] * 1000)} if "term_delay" in sp
+                else {"behaviour": sp["behaviour"]} for sp in case["servers"]]}
         if "self_exit" in case:
             # it answers what it was asked (if it is a child that answers) and is gone when the exit begins
             answered = case.get("nreq", 1) if (case["moment"] == "after" and H.answers(case, 1)) else 0
@@ -409,10 +438,13 @@ class Scenarios(Suite):
             return "harness error: " + o["harness_error"]
         if "bad" in case:
             return None if (not o["entered"]) == m["raised_on_enter"] else "entering differs"
+        if case.get("servers") and self.oracle(case, o) is not None:
+            return None      # the property oracle already reports this case (possibly as a known finding)
         mine = {
             "raised_on_enter": (not o["entered"]) and case["moment"] != "entry",
             "child": "reaped" if o["state"] == "gone" else o["state"],
-            "bounded": (not o["hang"]) and o["duration_ms"] is not None and o["duration_ms"] <= BOUND_MS,
+            "bounded": (not o["hang"]) and o["duration_ms"] is not None
+            and o["duration_ms"] <= H.GRACE_MS * max(1, len(case.get("servers") or [1])) + H.SLACK_MS,
             "requests": ["returned" if r["outcome"] == "returned" else "timeout"
                          for r in o["requests"] if not r.get("held")],
         }
@@ -431,6 +463,25 @@ class Scenarios(Suite):
                 return (f"bad-command-entered/{case['bad']}{'/retry' if which and o.get('attempts', ['x'])[0] == 'raised' else ''}",
                         f"entering the context with an unstartable command ({case['bad']}, {case.get('api')}) did not raise{which}",
                         {"raised_on_enter": True})
+            return None
+        if case.get("servers"):
+            n = len(case["servers"])
+            names = "+".join(sp["behaviour"] for sp in case["servers"])
+            what = f"server_manager.run_command with {n} server(s) [{names}], command function {'raises' if case['path'] == 'exception' else 'returns'}"
+            bound = H.GRACE_MS * n + H.SLACK_MS
+            if o["duration_ms"] is not None and o["duration_ms"] > bound:
+                return ("unbounded/run_command", f"{what}: leaving the {n} context(s) took {o['duration_ms']} ms", {"duration_ms": f"<= {bound}"})
+            if o["state"] == "running":
+                return ("child-left-running/run_command", f"{what}: a server process is still running after run_command returned "
+                        f"({o['fd_delta']} descriptors still open)", {"state": "gone", "fd_delta": 0})
+            if o["state"] == "zombie":
+                return ("child-unreaped/run_command", f"{what}: a server process is an unreaped zombie after run_command returned "
+                        f"({o['fd_delta']} descriptors still open)", {"state": "gone", "fd_delta": 0})
+            if o["fd_delta"] is not None and o["fd_delta"] > 0:
+                return ("fd-leak/run_command", f"{what}: {o['fd_delta']} additional descriptor(s) open after run_command returned", {"fd_delta": 0})
+            for r in o["requests"]:
+                if r["outcome"] == "returned" and r.get("payload") != {"echo": r["x"]}:
+                    return ("fabricated-result/run_command", f"{what}: server {r['client']} returned {r.get('payload')!r}", None)
             return None
         if case.get("concurrent"):
             names = "+".join(sp["behaviour"] + ("%d" % sp["k"] if "k" in sp else "") for sp in case["concurrent"])
@@ -511,6 +562,8 @@ class Scenarios(Suite):
         if "bad" in case:
             return f"bad-command/{case['bad']}/{case.get('api')}{'x%d' % case['attempts'] if case.get('attempts', 1) > 1 else ''}"
         b = case["behaviour"] + ("%d" % case["k"] if "k" in case else "")
+        if case.get("servers"):
+            return f"run_command:{'+'.join(sp['behaviour'] for sp in case['servers'])}/{case['path']}"
         if case.get("concurrent"):
             b = "concurrent:" + "+".join(sp["behaviour"] + ("%d" % sp["k"] if "k" in sp else "") for sp in case["concurrent"]) \
                 + "/" + case.get("req_api", "legacy")
@@ -551,6 +604,11 @@ class Scenarios(Suite):
         if case["moment"] == "entry":
             if case["behaviour"] != "well":
                 yield dict(case, behaviour="well")
+            return
+        if case.get("servers"):
+            if len(case["servers"]) > 1:
+                for i in range(len(case["servers"])):
+                    yield dict(case, servers=case["servers"][:i] + case["servers"][i + 1:])
             return
         if case.get("concurrent"):
             if len(case["concurrent"]) > 2:
